@@ -54,7 +54,8 @@ def small_grammar(cmds):
 
 
 CONFIGS = [(regs, inside) for regs in ((), ("R",), ("D",), ("R", "D")) for inside in (False, True)] + \
-          [(("R",), "added")]      # index 8: the region is drawn around the nozzle (no episode open yet)
+          [(("R",), "added"),      # index 8: the region is drawn around the nozzle (no episode open yet)
+           (("R",), "mixed")]      # index 9: inside an episode, E-only cycle skipped, then a G10/G11 cycle skipped
 
 
 def shape_ok(r):
@@ -83,6 +84,9 @@ def base(ci):
             w.step(("ADD", "R", "r"))
         else:
             w = World(dict(prop="C09", monitors=(), regions=list(regs), key_depth=False, exit="M400\n"))
+        if inside == "mixed":
+            for c in ("G1 X50 Y40", "G1 E-1 F1800", "G1 E0 F1800", "G10", "G11"):
+                w.step(("RAW", c))
         if inside is True:
             w.step(("RAW", "G1 X50 Y40 E-1" if regs else "G1 X50 Y40"))
             w.step(("RAW", "M204 S5"))
@@ -171,7 +175,7 @@ def prepare(ctx):
 def enumerate_inputs(ctx):
     full, small = _GRAM["full"], _GRAM["small"]
     tasks = []
-    cfgs = [1, 3, 4, 8] if ctx.quick else list(range(len(CONFIGS)))
+    cfgs = [1, 3, 8, 9] if ctx.quick else list(range(len(CONFIGS)))
     for ci in cfgs:
         for entry in ("hook", "stream"):
             for first in full:
